@@ -1,7 +1,6 @@
 import HH.WasmB
 import HH.Proofs.PortableSpec
 import HH.Proofs.X86Lemmas
-import Std.Tactic.BVDecide
 import Mathlib.Tactic.IntervalCases
 /-!
 # The Wasm SIMD model refines the portable model (step lemmas, valid for ALL register states)
@@ -108,15 +107,58 @@ theorem new_refines (k : V4) : toPortable (new k).r = (P.new k).st := by
   simp [new, toPortable, P.new, rot_lanes, init0L, init0H, init1L, init1H, P.init0, P.init1, V4.zipWith, V4.map]
   refine ⟨⟨?_, ?_, ?_, ?_⟩, ⟨?_, ?_, ?_, ?_⟩⟩ <;> exact BitVec.xor_comm _ _
 
+theorem lo_srli (a : BitVec 128) (k : Nat) (hk : k < 64) : lo (srliEpi64 a k) = lo a >>> k := by
+  simp only [lo_eq, srli_lanes, X86.hi64_mk, Nat.mod_eq_of_lt hk]
+theorem hi_srli (a : BitVec 128) (k : Nat) (hk : k < 64) : hi (srliEpi64 a k) = hi a >>> k := by
+  simp only [hi_eq, srli_lanes, X86.lo64_mk, Nat.mod_eq_of_lt hk]
+theorem lo_slli8 (a : BitVec 128) : lo (slli8 a) = 0 := by
+  simp only [slli8, u64x2_shuffle, sel64, Nat.reduceLT, ↓reduceIte, Nat.reduceSub, u64x2_eq, lo_eq, X86.hi64_mk, lane64_0, X86.lo64_mk]
+theorem hi_slli8 (a : BitVec 128) : hi (slli8 a) = lo a := by
+  simp only [slli8, u64x2_shuffle, sel64, Nat.reduceLT, ↓reduceIte, Nat.reduceSub, u64x2_eq, hi_eq, lo_eq, X86.lo64_mk, lane64_1]
+theorem lo_andnot (a b : BitVec 128) : lo (v128_andnot a b) = lo a &&& ~~~(lo b) := by
+  simp only [lo_eq]; unfold X86.hi64 v128_andnot; bv_lsb
+theorem hi_andnot (a b : BitVec 128) : hi (v128_andnot a b) = hi a &&& ~~~(hi b) := by
+  simp only [hi_eq]; unfold X86.lo64 v128_andnot; bv_lsb
+theorem signBit_lo : lo (i32x4_replace_lane 1 (v2new 0 0) 0x80000000#32) = 0 := by decide
+theorem signBit_hi : hi (i32x4_replace_lane 1 (v2new 0 0) 0x80000000#32) = 0x8000000000000000#64 := by decide
+
+theorem v2new_mk32 (h l : BitVec 64) :
+    v2new h l = X86.mk32 ((l >>> 32).setWidth 32) (l.setWidth 32) ((h >>> 32).setWidth 32) (h.setWidth 32) := by
+  rw [v2new_eq, X86.mk_as_mk32]
+theorem mask_lo : v2new 0 0xFFFFFFFF#64 = X86.mk32 0 0xFFFFFFFF#32 0 0 := by decide
+theorem zero_mk32 : v2new 0 0 = X86.mk32 0 0 0 0 := by decide
+theorem slli8_mk32 (d c b a : BitVec 32) : slli8 (X86.mk32 d c b a) = X86.mk32 0 0 d c := by
+  apply X86.ext128
+  · have := hi_slli8 (X86.mk32 d c b a)
+    simp only [hi_eq, lo_eq] at this
+    rw [this, X86.hi64_mk32, X86.lo64_mk32]
+  · have := lo_slli8 (X86.mk32 d c b a)
+    simp only [lo_eq] at this
+    rw [this, X86.hi64_mk32]; exact X86.join32_zero.symm
+theorem and_mk32 (d c b a d' c' b' a' : BitVec 32) :
+    v128_and (X86.mk32 d c b a) (X86.mk32 d' c' b' a') = X86.mk32 (d &&& d') (c &&& c') (b &&& b') (a &&& a') := X86.and_mk32 ..
+theorem or_mk32 (d c b a d' c' b' a' : BitVec 32) :
+    v128_or (X86.mk32 d c b a) (X86.mk32 d' c' b' a') = X86.mk32 (d ||| d') (c ||| c') (b ||| b') (a ||| a') := X86.or_mk32 ..
+theorem replace1 (d c b a x : BitVec 32) : i32x4_replace_lane 1 (X86.mk32 d c b a) x = X86.mk32 d c x a := by
+  have h := X86.lane32_mk32 d c b a
+  simp only [i32x4_replace_lane, lane32_eq, u32x4_eq, h.1, h.2.2.1, h.2.2.2, ↓reduceIte, OfNat.ofNat_ne_zero, OfNat.ofNat_ne_one,
+    Nat.reduceEqDiff, OfNat.one_ne_ofNat, one_ne_zero]
+theorem le64_lo (l : List (BitVec 8)) : (le64 l).setWidth 32 = le32 l := by rw [X86.le64_join, X86.join32_lo]
+theorem le64_hi (l : List (BitVec 8)) : ((le64 l) >>> 32).setWidth 32 = le32 (l.drop 4) := by rw [X86.le64_join, X86.join32_hi]
+theorem z32a : ((0 : BitVec 64) >>> 32).setWidth 32 = (0 : BitVec 32) := by decide
+theorem z32b : (0 : BitVec 64).setWidth 32 = (0 : BitVec 32) := by decide
+
 set_option maxRecDepth 100000 in
-set_option maxHeartbeats 8000000 in
+set_option maxHeartbeats 16000000 in
 theorem remainder_refines_fn (n : Nat) (h : n < 32) (f : Fin n → BitVec 8) :
     lanesOfRegs (remainder (List.ofFn f)).1 (remainder (List.ofFn f)).2 = P.dataToLanes (P.remainder (List.ofFn f)) := by
   interval_cases n <;>
-  simp [remainder, loadMultipleOfFour, P.remainder, P.dataToLanes, lanesOfRegs, unorderedLoad3, zeros, List.ofFn_succ,
-    List.replicate, List.set, List.getD, List.zipWith, slli8, u64x2_shuffle, sel64, le64, le32, i32x4_replace_lane,
-    v128_or, v128_and, u32x4, lo, hi, v2new, u64x2_extract_lane, lane64, lane32, u64x2] <;>
-  bv_decide
+  (simp [remainder, loadMultipleOfFour, P.remainder, P.dataToLanes, lanesOfRegs, unorderedLoad3, zeros, List.ofFn_succ,
+    List.replicate, List.set, List.zipWith]
+   try simp only [mask_lo, zero_mk32, v2new_mk32, u32x4_eq, le64_lo, le64_hi, z32a, z32b, slli8_mk32, and_mk32, or_mk32, replace1,
+     lo_eq, hi_eq, X86.lo64_mk32, X86.hi64_mk32, X86.le64_join, List.drop_succ_cons, List.drop_zero, X86.load3_1, X86.load3_2, X86.load3_3,
+     X86.join32_lo, X86.join32_hi]
+   try simp [X86.le32_cons4, X86.le32_zero4, X86.and_ones32, X86.join32_zero])
 
 theorem remainder_refines (bytes : List (BitVec 8)) (h : bytes.length < 32) :
     lanesOfRegs (remainder bytes).1 (remainder bytes).2 = P.dataToLanes (P.remainder bytes) := by
@@ -165,21 +207,6 @@ theorem finalizeCommon_refines (n : Nat) (x : State) (hx : x.buffer.Inv) :
   by_cases h0 : x.buffer.idx = 0
   · simp [h0]
   · simp [h0, updateRemainder_refines x hb hi']
-
-theorem lo_srli (a : BitVec 128) (k : Nat) (hk : k < 64) : lo (srliEpi64 a k) = lo a >>> k := by
-  simp only [lo_eq, srli_lanes, X86.hi64_mk, Nat.mod_eq_of_lt hk]
-theorem hi_srli (a : BitVec 128) (k : Nat) (hk : k < 64) : hi (srliEpi64 a k) = hi a >>> k := by
-  simp only [hi_eq, srli_lanes, X86.lo64_mk, Nat.mod_eq_of_lt hk]
-theorem lo_slli8 (a : BitVec 128) : lo (slli8 a) = 0 := by
-  simp only [slli8, u64x2_shuffle, sel64, Nat.reduceLT, ↓reduceIte, Nat.reduceSub, u64x2_eq, lo_eq, X86.hi64_mk, lane64_0, X86.lo64_mk]
-theorem hi_slli8 (a : BitVec 128) : hi (slli8 a) = lo a := by
-  simp only [slli8, u64x2_shuffle, sel64, Nat.reduceLT, ↓reduceIte, Nat.reduceSub, u64x2_eq, hi_eq, lo_eq, X86.lo64_mk, lane64_1]
-theorem lo_andnot (a b : BitVec 128) : lo (v128_andnot a b) = lo a &&& ~~~(lo b) := by
-  simp only [lo_eq]; unfold X86.hi64 v128_andnot; bv_lsb
-theorem hi_andnot (a b : BitVec 128) : hi (v128_andnot a b) = hi a &&& ~~~(hi b) := by
-  simp only [hi_eq]; unfold X86.lo64 v128_andnot; bv_lsb
-theorem signBit_lo : lo (i32x4_replace_lane 1 (v2new 0 0) 0x80000000#32) = 0 := by decide
-theorem signBit_hi : hi (i32x4_replace_lane 1 (v2new 0 0) 0x80000000#32) = 0x8000000000000000#64 := by decide
 
 theorem modLaneW (xh xl ih il : BitVec 64) :
     il ^^^ (xl <<< 2) ^^^ 0 ^^^ ((xl <<< 1) &&& ~~~(0 : BitVec 64)) ^^^ 0 = (P.moduleReduction xh xl ih il).1 ∧
